@@ -99,7 +99,7 @@ theorem steps_probeLabel (stem : Name) (s : St) : Steps s (s.probeLabel stem).2 
 
 theorem steps_ifPrologue (g : Globals) (cond : IfCond) (dup isElse : Bool) (labelEnd : Option Name) (s : St) :
     Steps s (ifPrologue g cond dup isElse labelEnd s).2.2 := by
-  unfold ifPrologue
+  unfold ifPrologue ifLabels
   dsimp only
   have h0 : Steps s (if dup then s.addErr .ifElseDuplicated "if-condition".toList 1 0 else s) := by
     cases dup
